@@ -214,42 +214,6 @@ fn main() {
 
     let quick = ctx.quick();
     let versions: &[u32] = &[14, 7, 5];
-    // (a) single edits + core pairs
-    for mode in 0..4u8 {
-        for &version in versions {
-            let text = base(mode, version);
-            let lines: Vec<String> = text.lines().map(str::to_owned).collect();
-            let all = edits(&lines, false);
-            let core = edits(&lines, true);
-            let pair_set = if quick || version != 14 { &core } else { &all };
-            let n1 = all.len() as u64;
-            let n2 = if quick && version != 14 { 0 } else { (pair_set.len() * pair_set.len()) as u64 };
-            let name = format!("a-edits/mode{mode}/v{version}");
-            ctx.universe_isolated(&name, n1 + n2, 2.0, 1024, |idx, l| {
-                let mut ls = lines.clone();
-                let applied: Vec<Edit> = if idx < n1 {
-                    vec![all[idx as usize].clone()]
-                } else {
-                    let k = (idx - n1) as usize;
-                    vec![pair_set[k / pair_set.len()].clone(), pair_set[k % pair_set.len()].clone()]
-                };
-                for e in &applied {
-                    apply(&mut ls, e);
-                }
-                let mut t = ls.join("\n");
-                t.push('\n');
-                if l.want_sample() {
-                    let mut o = J::obj();
-                    o.set("universe", J::s(name.clone()));
-                    o.set("index", J::i(idx));
-                    o.set("edits", J::s(format!("{applied:?}")));
-                    l.sample(o);
-                }
-                oracle(l, t.as_bytes(), idx % 16 == 0, false, &|| format!("edits={applied:?}\n--- text ---\n{t}"));
-            });
-        }
-    }
-
     // (b) prefixes in four encodings, (c) substitutions
     for mode in 0..4u8 {
         let text = base(mode, 14);
@@ -338,5 +302,42 @@ fn main() {
             });
         }
     }
+    // (a) comes last: it is by far the largest universe, and the internal wall cap must not starve the others
+    // (a) single edits + core pairs
+    for mode in 0..4u8 {
+        for &version in versions {
+            let text = base(mode, version);
+            let lines: Vec<String> = text.lines().map(str::to_owned).collect();
+            let all = edits(&lines, false);
+            let core = edits(&lines, true);
+            let pair_set = if quick || version != 14 { &core } else { &all };
+            let n1 = all.len() as u64;
+            let n2 = if quick && version != 14 { 0 } else { (pair_set.len() * pair_set.len()) as u64 };
+            let name = format!("a-edits/mode{mode}/v{version}");
+            ctx.universe_isolated(&name, n1 + n2, 2.0, 1024, |idx, l| {
+                let mut ls = lines.clone();
+                let applied: Vec<Edit> = if idx < n1 {
+                    vec![all[idx as usize].clone()]
+                } else {
+                    let k = (idx - n1) as usize;
+                    vec![pair_set[k / pair_set.len()].clone(), pair_set[k % pair_set.len()].clone()]
+                };
+                for e in &applied {
+                    apply(&mut ls, e);
+                }
+                let mut t = ls.join("\n");
+                t.push('\n');
+                if l.want_sample() {
+                    let mut o = J::obj();
+                    o.set("universe", J::s(name.clone()));
+                    o.set("index", J::i(idx));
+                    o.set("edits", J::s(format!("{applied:?}")));
+                    l.sample(o);
+                }
+                oracle(l, t.as_bytes(), idx % 16 == 0, false, &|| format!("edits={applied:?}\n--- text ---\n{t}"));
+            });
+        }
+    }
+
     ctx.finish();
 }
